@@ -9,35 +9,255 @@ import Saltpack.Proofs.Digits
 namespace Saltpack.Proofs
 open Saltpack Saltpack.Encrypt
 
+/-! ### helper lemmas -/
+
+/-- every piece of `chunks n l` that has a successor is exactly `n` long -/
+theorem chunks_nonlast_length {α : Type} (n : Nat) (hn : 0 < n) :
+    ∀ (k : Nat) (l : List α), l.length ≤ k → ∀ (pre : List (List α)) (c : List α) (rest : List (List α)),
+      chunks n l = pre ++ c :: rest → rest ≠ [] → c.length = n := by
+  intro k
+  induction k with
+  | zero =>
+    intro l h pre c rest hc _
+    have : l = [] := List.length_eq_zero_iff.mp (by omega)
+    subst this
+    rw [chunks_nil] at hc
+    simp at hc
+  | succ k ih =>
+    intro l h pre c rest hc hr
+    by_cases hl : l = []
+    · subst hl
+      rw [chunks_nil] at hc
+      simp at hc
+    · by_cases hs : l.length ≤ n
+      · rw [chunks_short n l hl hs] at hc
+        have hlen := congrArg List.length hc
+        have : 0 < rest.length := List.length_pos_iff.mpr hr
+        simp at hlen
+        omega
+      · rw [chunks_long n hn l (by omega)] at hc
+        have hlen : (l.drop n).length = l.length - n := List.length_drop
+        cases pre with
+        | nil =>
+          simp only [List.nil_append, List.cons.injEq] at hc
+          rw [← hc.1, List.length_take]
+          omega
+        | cons p pre' =>
+          simp only [List.cons_append, List.cons.injEq] at hc
+          exact ih (l.drop n) (by omega) pre' c rest hc.2 hr
+
+/-- a non-empty list is its `dropLast` followed by its `getLast!` -/
+theorem dropLast_append_getLast! {α : Type} [Inhabited α] (l : List α) (h : l ≠ []) :
+    l.dropLast ++ [l.getLast!] = l := by
+  rcases List.eq_nil_or_concat l with h0 | ⟨l', b, rfl⟩
+  · exact absurd h0 h
+  · simp
+
+/-- the shape of the plan for `v1` -/
+theorem chunkPlan_v1 (bs : Nat) (pt : Bytes) :
+    chunkPlan v1 bs pt = (chunks bs pt).map (·, false) ++ [([], true)] := by
+  simp [chunkPlan]
+
+/-- the shape of the plan for every other version: the chunks with the last one
+    flagged, or a sole empty final chunk -/
+theorem chunkPlan_not_v1 (v : Version) (hv : v ≠ v1) (bs : Nat) (pt : Bytes) :
+    (chunks bs pt = [] ∧ chunkPlan v bs pt = [([], true)]) ∨
+    (∃ init last, chunks bs pt = init ++ [last] ∧
+      chunkPlan v bs pt = init.map (·, false) ++ [(last, true)]) := by
+  unfold chunkPlan
+  simp only [if_neg hv]
+  rcases List.eq_nil_or_concat (chunks bs pt) with h0 | ⟨init, last, h1⟩
+  · left
+    simp [h0]
+  · right
+    refine ⟨init, last, by simpa using h1, ?_⟩
+    rw [h1]
+    simp
+
+theorem v2_ne_v1 : v2 ≠ v1 := by decide
+
+/-- a non-final entry of `A ++ [(x, true)]` lies in `A` -/
+theorem split_before_last {α : Type} (A pre rest : List (α × Bool)) (x c : α)
+    (h : A ++ [(x, true)] = pre ++ (c, false) :: rest) :
+    ∃ rest', rest = rest' ++ [(x, true)] ∧ A = pre ++ (c, false) :: rest' := by
+  rcases List.eq_nil_or_concat rest with h0 | ⟨rest', y, h1⟩
+  · subst h0
+    have h2 := List.append_inj_right' h (by simp)
+    simp at h2
+  · rw [List.concat_eq_append] at h1
+    subst h1
+    have h' : A ++ [(x, true)] = (pre ++ (c, false) :: rest') ++ [y] := by
+      rw [h]; simp
+    have h2 := List.append_inj' h' (by simp)
+    simp only [List.cons.injEq, and_true] at h2
+    exact ⟨rest', by rw [h2.2], h2.1⟩
+
+/-! ### the plan -/
+
 /-- the chunks, concatenated, are the plaintext -/
 theorem chunkPlan_flatten (v : Version) (bs : Nat) (pt : Bytes) :
     ((chunkPlan v bs pt).map (·.1)).flatten = pt := by
-  sorry
+  by_cases hv : v = v1
+  · subst hv
+    rw [chunkPlan_v1]
+    simp [List.map_append, List.map_map, Function.comp_def, chunks_flatten]
+  · rcases chunkPlan_not_v1 v hv bs pt with ⟨h0, h1⟩ | ⟨init, last, h0, h1⟩
+    · have := chunks_flatten bs pt
+      rw [h0] at this
+      rw [h1, ← this]
+      rfl
+    · have := chunks_flatten bs pt
+      rw [h0] at this
+      rw [h1, ← this]
+      simp [List.map_append, List.map_map, Function.comp_def]
 
 /-- never empty; exactly the last entry is final -/
 theorem chunkPlan_final (v : Version) (bs : Nat) (pt : Bytes) :
     ∃ pre c, chunkPlan v bs pt = pre ++ [(c, true)] ∧ ∀ p ∈ pre, p.2 = false := by
-  sorry
+  by_cases hv : v = v1
+  · subst hv
+    refine ⟨(chunks bs pt).map (·, false), [], chunkPlan_v1 bs pt, ?_⟩
+    intro p hp
+    rw [List.mem_map] at hp
+    obtain ⟨a, _, rfl⟩ := hp
+    rfl
+  · rcases chunkPlan_not_v1 v hv bs pt with ⟨_, h1⟩ | ⟨init, last, _, h1⟩
+    · exact ⟨[], [], by rw [h1]; rfl, by simp⟩
+    · refine ⟨init.map (·, false), last, h1, ?_⟩
+      intro p hp
+      rw [List.mem_map] at hp
+      obtain ⟨a, _, rfl⟩ := hp
+      rfl
 
 /-- every chunk is at most one block long -/
 theorem chunkPlan_size (v : Version) (bs : Nat) (hb : 0 < bs) (pt : Bytes) :
     ∀ p ∈ chunkPlan v bs pt, p.1.length ≤ bs := by
-  sorry
+  have hc := chunks_mem_length bs hb pt.length pt (Nat.le_refl _)
+  intro p hp
+  by_cases hv : v = v1
+  · subst hv
+    rw [chunkPlan_v1, List.mem_append] at hp
+    rcases hp with hp | hp
+    · rw [List.mem_map] at hp
+      obtain ⟨a, ha, rfl⟩ := hp
+      exact (hc a ha).2
+    · simp only [List.mem_singleton] at hp
+      subst hp
+      simp
+  · rcases chunkPlan_not_v1 v hv bs pt with ⟨_, h1⟩ | ⟨init, last, h0, h1⟩
+    · rw [h1] at hp
+      simp only [List.mem_singleton] at hp
+      subst hp
+      simp
+    · rw [h1, List.mem_append] at hp
+      rcases hp with hp | hp
+      · rw [List.mem_map] at hp
+        obtain ⟨a, ha, rfl⟩ := hp
+        exact (hc a (by rw [h0]; simp [ha])).2
+      · simp only [List.mem_singleton] at hp
+        subst hp
+        exact (hc last (by rw [h0]; simp)).2
 
 /-- V2: a chunk is empty only if the whole plaintext is (sole, final chunk);
     V1: exactly the final chunk is empty -/
 theorem chunkPlan_empty_v2 (bs : Nat) (hb : 0 < bs) (pt : Bytes) :
     (∀ p ∈ chunkPlan v2 bs pt, p.1 = [] → pt = []) ∧ (pt = [] → chunkPlan v2 bs pt = [([], true)]) := by
-  sorry
+  have hc := chunks_mem_length bs hb pt.length pt (Nat.le_refl _)
+  constructor
+  · intro p hp he
+    rcases chunkPlan_not_v1 v2 v2_ne_v1 bs pt with ⟨h0, _⟩ | ⟨init, last, h0, h1⟩
+    · have := chunks_flatten bs pt
+      rw [h0] at this
+      exact this.symm
+    · exfalso
+      rw [h1, List.mem_append] at hp
+      rcases hp with hp | hp
+      · rw [List.mem_map] at hp
+        obtain ⟨a, ha, rfl⟩ := hp
+        have := (hc a (by rw [h0]; simp [ha])).1
+        simp only at he
+        rw [he] at this
+        simp at this
+      · simp only [List.mem_singleton] at hp
+        subst hp
+        have := (hc last (by rw [h0]; simp)).1
+        simp only at he
+        rw [he] at this
+        simp at this
+  · intro he
+    subst he
+    rcases chunkPlan_not_v1 v2 v2_ne_v1 bs [] with ⟨_, h1⟩ | ⟨init, last, h0, _⟩
+    · exact h1
+    · rw [chunks_nil] at h0
+      simp at h0
 
 theorem chunkPlan_empty_v1 (bs : Nat) (hb : 0 < bs) (pt : Bytes) :
     ∀ p ∈ chunkPlan v1 bs pt, (p.1 = [] ↔ p.2 = true) := by
-  sorry
+  have hc := chunks_mem_length bs hb pt.length pt (Nat.le_refl _)
+  intro p hp
+  rw [chunkPlan_v1, List.mem_append] at hp
+  rcases hp with hp | hp
+  · rw [List.mem_map] at hp
+    obtain ⟨a, ha, rfl⟩ := hp
+    have := (hc a ha).1
+    constructor
+    · intro he
+      simp only at he
+      rw [he] at this
+      simp at this
+    · intro he
+      simp at he
+  · simp only [List.mem_singleton] at hp
+    subst hp
+    simp
 
 /-- every non-final chunk is a full block -/
 theorem chunkPlan_full (v : Version) (bs : Nat) (hb : 0 < bs) (pt : Bytes) :
     ∀ pre c rest, chunkPlan v bs pt = pre ++ (c, false) :: rest → (v = v1 ∨ v = v2) →
       (rest.length ≥ 2 ∨ v = v2) → c.length = bs := by
-  sorry
+  intro pre c rest h hv hr
+  have hnl := chunks_nonlast_length bs hb pt.length pt (Nat.le_refl _)
+  by_cases hv1 : v = v1
+  · subst hv1
+    have hr2 : rest.length ≥ 2 := by
+      rcases hr with hr | hr
+      · exact hr
+      · exact absurd hr.symm v2_ne_v1
+    rw [chunkPlan_v1] at h
+    obtain ⟨rest', h1, h2⟩ := split_before_last _ _ _ _ _ h
+    have hr' : rest' ≠ [] := by
+      intro h0
+      subst h0
+      subst h1
+      simp at hr2
+    rw [List.map_eq_append_iff] at h2
+    obtain ⟨l1, l2, hcs, _, h3⟩ := h2
+    rw [List.map_eq_cons_iff] at h3
+    obtain ⟨a, l3, hl2, ha, hl3⟩ := h3
+    simp only [Prod.mk.injEq, and_true] at ha
+    subst ha
+    subst hl2
+    apply hnl l1 a l3 hcs
+    intro h0
+    subst h0
+    simp at hl3
+    exact hr' hl3
+  · rcases chunkPlan_not_v1 v hv1 bs pt with ⟨_, h1⟩ | ⟨init, last, h0, h1⟩
+    · rw [h1] at h
+      have := split_before_last [] pre rest [] c (by simpa using h)
+      obtain ⟨rest', _, h2⟩ := this
+      simp at h2
+    · rw [h1] at h
+      obtain ⟨rest', _, h2⟩ := split_before_last _ _ _ _ _ h
+      rw [List.map_eq_append_iff] at h2
+      obtain ⟨l1, l2, hcs, _, h3⟩ := h2
+      rw [List.map_eq_cons_iff] at h3
+      obtain ⟨a, l3, hl2, ha, _⟩ := h3
+      simp only [Prod.mk.injEq, and_true] at ha
+      subst ha
+      subst hl2
+      subst hcs
+      apply hnl l1 a (l3 ++ [last]) (by rw [h0]; simp)
+      simp
 
 end Saltpack.Proofs
